@@ -150,9 +150,17 @@ def build_stack(c):
     return base_env, env
 
 
+def FQ(x):
+    """float -> Fraction; non-finite values become huge sentinels so that they simply compare unequal"""
+    x = float(x)
+    if x != x: return Fraction(10 ** 40)
+    if x in (float("inf"), float("-inf")): return Fraction(10 ** 39) * (1 if x > 0 else -1)
+    return Fraction(x)
+
+
 def fr(x):
     import numpy as onp
-    return Fraction(float(onp.asarray(x)))
+    return FQ(onp.asarray(x))
 
 
 def impl_run(c):
@@ -179,30 +187,30 @@ def impl_run(c):
         if "log" in aux:
             ls = aux["log"]
             cols = [bat(getattr(ls, n)) for n in ("episode_returns", "episode_lengths", "returned_episode_returns", "returned_episode_lengths", "timestep")]
-            logs = [[Fraction(float(col[b])) for col in cols] for b in range(B)]
+            logs = [[FQ((col[b])) for col in cols] for b in range(B)]
         envs = [dict(core=(int(tt[b]), int(acc[b]), int(sid[b])), key=tuple(int(x) for x in kd[b]), log=None if logs is None else logs[b])
                 for b in range(B)]
         nobs = None
         if aux.get("norm_obs", None) is not None:
             ns = aux["norm_obs"]
             m, v = onp.asarray(ns.mean), onp.asarray(ns.var)
-            nobs = [[Fraction(float(m[j])), Fraction(float(v[j])), Fraction(float(onp.asarray(ns.count)))] for j in range(m.shape[0])]
+            nobs = [[FQ((m[j])), FQ((v[j])), FQ((onp.asarray(ns.count)))] for j in range(m.shape[0])]
         nrew = None
         if aux.get("norm_reward", None) is not None:
             ns = aux["norm_reward"]
-            nrew = ([fr(ns.mean), fr(ns.var), fr(ns.count)], [Fraction(float(x)) for x in onp.asarray(ns.return_val)])
-        ob = bat(obs); out = dict(envs=envs, nobs=nobs, nrew=nrew, obs=[[Fraction(float(x)) for x in ob[b]] for b in range(B)])
+            nrew = ([fr(ns.mean), fr(ns.var), fr(ns.count)], [FQ((x)) for x in onp.asarray(ns.return_val)])
+        ob = bat(obs); out = dict(envs=envs, nobs=nobs, nrew=nrew, obs=[[FQ((x)) for x in ob[b]] for b in range(B)])
         it = bat(info["t"])
         infos = []
         for b in range(B):
             il = None
             if "returned_episode_returns" in info:
-                il = ([Fraction(float(bat(info[k])[b])) for k in ("returned_episode_returns", "returned_episode_lengths", "timestep")],
+                il = ([FQ((bat(info[k])[b])) for k in ("returned_episode_returns", "returned_episode_lengths", "timestep")],
                       bool(bat(info["returned_episode"])[b]))
             infos.append((int(it[b]), il))
         out["info"] = infos
         if rew is not None:
-            out["rew"] = [Fraction(float(x)) for x in bat(rew)]
+            out["rew"] = [FQ((x)) for x in bat(rew)]
             out["te"] = [bool(x) for x in bat(te)]; out["tr"] = [bool(x) for x in bat(tr)]
         return out
 
@@ -376,7 +384,7 @@ def squash_kernel_checks(chk, n):
         lo = Fraction(r.randint(-40, 40), 8); hi = lo + Fraction(r.randint(1, 64), 8)
         x = Fraction(r.randint(-48, 48), 8) if i % 4 else Fraction(r.choice([-1, 1]) * r.choice([9, 25, 1000, 10 ** 6]))
         st = rl.SquashState(low=jnp.array([float(lo)], jnp.float32), high=jnp.array([float(hi)], jnp.float32), squash=True)
-        y = Fraction(float(onp.asarray(st.unsquash(jnp.array([float(x)], jnp.float32)))[0]))
+        y = FQ((onp.asarray(st.unsquash(jnp.array([float(x)], jnp.float32)))[0]))
         ulp = Fraction(float(onp.spacing(onp.float32(max(abs(float(lo)), abs(float(hi)))))))
         chk.case(("unsquash", lo, hi, x), ["squash-kernel"] + (["extreme-action"] if abs(x) >= 9 else []), None); chk.traces_impl += 1
         if not (lo - 2 * ulp <= y <= hi + 2 * ulp):
@@ -388,12 +396,12 @@ def squash_kernel_checks(chk, n):
                      f"({x.numerator} / {x.denominator}) <= {b.numerator} / {b.denominator})%R. Proof. unfold unsquash_exp. interval with (i_prec 80). Qed.")
         rows.append((lo, hi, x, y))
         if abs(x) <= 4:    # inverse inside the box (float32 arctanh loses accuracy towards the faces)
-            back = Fraction(float(onp.asarray(st.scale(st.unsquash(jnp.array([float(x)], jnp.float32))))[0]))
+            back = FQ((onp.asarray(st.scale(st.unsquash(jnp.array([float(x)], jnp.float32))))[0]))
             if abs(back - x) > Fraction(1, 100) * (1 + abs(x)):
                 chk.violation("scale-unsquash-not-inverse", f"scale(unsquash({float(x)})) = {float(back)}", dict(lo=str(lo), hi=str(hi), x=str(x)))
             yy = lo + (hi - lo) * Fraction(r.randint(1, 15), 16)
-            z = Fraction(float(onp.asarray(st.scale(jnp.array([float(yy)], jnp.float32)))[0]))
-            back2 = Fraction(float(onp.asarray(st.unsquash(jnp.array([float(z)], jnp.float32)))[0]))
+            z = FQ((onp.asarray(st.scale(jnp.array([float(yy)], jnp.float32)))[0]))
+            back2 = FQ((onp.asarray(st.unsquash(jnp.array([float(z)], jnp.float32)))[0]))
             if abs(back2 - yy) > Fraction(1, 10 ** 4) * (1 + abs(yy)):
                 chk.violation("unsquash-scale-not-inverse", f"unsquash(scale({float(yy)})) = {float(back2)}", dict(lo=str(lo), hi=str(hi), y=str(yy)))
             ta, tb = z - Fraction(1, 10 ** 4) * (1 + abs(z)), z + Fraction(1, 10 ** 4) * (1 + abs(z))
@@ -401,9 +409,24 @@ def squash_kernel_checks(chk, n):
                          f"({yy.numerator} / {yy.denominator}) <= {tb.numerator} / {tb.denominator})%R. Proof. unfold scale_ln. interval with (i_prec 80). Qed.")
         # squash=False: unsquash clips, scale is the identity
         st2 = rl.SquashState(low=st.low, high=st.high, squash=False)
-        yc = Fraction(float(onp.asarray(st2.unsquash(jnp.array([float(x)], jnp.float32)))[0]))
-        if yc != min(max(x, lo), hi) or Fraction(float(onp.asarray(st2.scale(jnp.array([float(x)], jnp.float32)))[0])) != Fraction(float(onp.float32(float(x)))):
+        yc = FQ((onp.asarray(st2.unsquash(jnp.array([float(x)], jnp.float32)))[0]))
+        if yc != min(max(x, lo), hi) or FQ((onp.asarray(st2.scale(jnp.array([float(x)], jnp.float32)))[0])) != Fraction(float(onp.float32(float(x)))):
             chk.violation("noscale-clip-wrong", f"SquashState(squash=False): unsquash({float(x)}) = {float(yc)}", dict(lo=str(lo), hi=str(hi), x=str(x)))
+    # float32, arbitrary (non-dyadic) bounds, saturating raw actions: the result must still be inside the closed box
+    m = 8 * n
+    los = onp.array([r.uniform(-3, 3) for _ in range(m)], onp.float32)
+    his = onp.array([float(l) + r.uniform(0.01, 4) for l in los], onp.float32)     # rounded once: high - low is not exact
+    xs = onp.array([r.choice([-1, 1]) * r.choice([9.5, 25.0, 1000.0, 1e6]) for _ in range(m)], onp.float32)
+    st = rl.SquashState(low=jnp.asarray(los), high=jnp.asarray(his), squash=True)
+    ys = onp.asarray(st.unsquash(jnp.asarray(xs)))
+    for lo_, hi_, x_, y_ in zip(los, his, xs, ys):
+        chk.case(("unsquash-f32", float(lo_), float(hi_), float(x_)), ["squash-kernel", "extreme-action", "non-dyadic-bounds"], None); chk.traces_impl += 1
+        if not (lo_ <= y_ <= hi_):
+            inside = bool(rl.Box(jnp.array([lo_]), jnp.array([hi_])).contains(jnp.array([y_])))
+            chk.violation("squash-float32-saturated-action-outside-bounds",
+                          f"SquashState(low={float(lo_)!r}, high={float(hi_)!r}, squash=True).unsquash({float(x_)!r}) = {float(y_)!r} is outside "
+                          f"[low, high] (Box.contains -> {inside}): tanh saturates to +-1 in float32 and (high - low) + low rounds past the bound",
+                          dict(low=float(lo_), high=float(hi_), x=float(x_), y=float(y_)))
     d = os.path.join(lib.WORK, "cases"); os.makedirs(d, exist_ok=True)
     open(os.path.join(d, "C19_squash.v"), "w").write(
         "From Coq Require Import Reals.\nFrom Interval Require Import Tactic.\nFrom Rex Require Import RlLaws.\n" + "\n".join(goals) + "\n")
@@ -573,7 +596,10 @@ def env_graph_check(chk, steps):
         gs, o, i = env.reset(jax.random.PRNGKey(r.randint(0, 1000)))
         for k in range(steps):
             a = jnp.array([r.randint(-32, 32) / 8, r.randint(-32, 32) / 8], jnp.float32)
-            out = env.step(gs, a)
+            case = dict(only_init=oi, step=k, action=[float(x) for x in a])
+            try: out = env.step(gs, a)
+            except Exception as ex:  # noqa
+                chk.violation("env-step-raises", f"Environment.step raised on a compiled 2-node graph: {type(ex).__name__}: {str(ex)[:200]}", case); break
             m, _ = g.step(gs, gs.step_state["agent"], Arr(a))
             want = (m, env.get_observation(m), env.get_reward(m, a), env.get_terminated(m), env.get_truncated(m), env.get_info(m, a))
             chk.case(("graph", oi, k, tuple(float(x) for x in a)), ["env-real-graph"], None); chk.traces_impl += 1
@@ -620,16 +646,32 @@ def run(chk, replay=None):
     r = chk.rnd
     if replay:
         rp = json.load(open(replay))
-        if "repr" in rp.get("case", {}):
-            run_cases(chk, [eval(rp["case"]["repr"], {"Fraction": Fraction})])
+        cs = rp.get("case", {})
+        if "repr" in cs:
+            run_cases(chk, [eval(cs["repr"], {"Fraction": Fraction})])
             return
-    n = 36 if chk.tier == "quick" else 260
+        if "low" in cs and "high" in cs and "x" in cs and "y" in cs:     # one float32 squash point
+            import jax.numpy as jnp, numpy as onp
+            from rex import rl
+            st = rl.SquashState(low=jnp.array([cs["low"]], jnp.float32), high=jnp.array([cs["high"]], jnp.float32), squash=True)
+            y = float(onp.asarray(st.unsquash(jnp.array([cs["x"]], jnp.float32)))[0])
+            chk.case(("replay", cs["low"], cs["high"], cs["x"]), ["squash-kernel"], cs); chk.traces_impl += 1
+            if not (onp.float32(cs["low"]) <= onp.float32(y) <= onp.float32(cs["high"])):
+                chk.violation(rp.get("signature", "squash-float32-saturated-action-outside-bounds"),
+                              f"SquashState(low={cs['low']!r}, high={cs['high']!r}, squash=True).unsquash({cs['x']!r}) = {y!r} is outside [low, high]", cs)
+            return
+    n = 36 if chk.tier == "quick" else 170
     cases = [gen_case(r, chk.tier, i) for i in range(n)]
     run_cases(chk, cases)
-    squash_kernel_checks(chk, 24 if chk.tier == "quick" else 120)
-    normalize_kernel_checks(chk, 60 if chk.tier == "quick" else 400)
-    env_symbolic_check(chk)
-    env_graph_check(chk, 3 if chk.tier == "quick" else 8)
+    def guarded(name, fn, *args):
+        try: fn(chk, *args)
+        except Exception as ex:  # noqa  (a sub-check that cannot complete, e.g. because rex raises inside it, must not hide the others)
+            import traceback
+            chk.broke(f"{name}-did-not-complete:{type(ex).__name__}", traceback.format_exc()[-800:])
+    guarded("squash-kernel-checks", squash_kernel_checks, 24 if chk.tier == "quick" else 120)
+    guarded("normalize-kernel-checks", normalize_kernel_checks, 60 if chk.tier == "quick" else 400)
+    guarded("env-symbolic-check", env_symbolic_check)
+    guarded("env-graph-check", env_graph_check, 3 if chk.tier == "quick" else 8)
     chk.extra["rule"] = ("scripted lattice environment (reward / terminated / truncated scripts per episode step, script row and initial "
                          "accumulator drawn from the reset key, actions on the 1/64 lattice, termination also requested through action[1]) under a "
                          "random wrapper stack (AutoReset stored/fresh, Log outside AutoReset, Squash on/off, Clip, in random order; then "
